@@ -102,4 +102,14 @@ def authDo (p : RetryPolicy) (body : BodyKind) (script : List Srv) : List Recv Ã
 def jitterTerm (guarded : Bool) (n : Int) (r : Int) : Option Int :=
   if n > 0 then some (r % n) else if guarded then some 0 else none
 
+/-- The first step of `ExponentialBackoff`'s result (`policy.go`): a 429 whose `Retry-After`
+    header parses (base 10) to a positive number of seconds decides the pause; anything else
+    falls through to the exponential value `expo`.  Durations in nanoseconds. -/
+def retryAfterPause (status : Nat) (ra : Option Int) (expo : Int) : Int :=
+  if status = 429 then
+    match ra with
+    | some v => if v > 0 then v * 1000000000 else expo
+    | none => expo
+  else expo
+
 end Oras
